@@ -74,6 +74,13 @@ func drainSL[K any](it skiplist.IteratorI[K, []byte], enc func(K) []byte) []kvPa
 		if err != nil {
 			if !errors.Is(err, skiplist.Done) {
 				out = append(out, kvPair{K: []byte("ERR:" + err.Error())})
+				return out
+			}
+			// an exhausted iterator stays exhausted: whatever it hands out when it is asked again is part of its output
+			for again := 0; again < 2; again++ {
+				if k2, v2, err2 := it.Next(); err2 == nil {
+					out = append(out, kvPair{K: enc(k2), V: v2})
+				}
 			}
 			return out
 		}
@@ -365,6 +372,7 @@ type pqOut struct {
 
 type c16PQ struct {
 	Mag    bool       `json:"mag"` // comparator returning magnitudes instead of -1/0/1
+	Int    bool       `json:"int,omitempty"` // the keys are 8-byte encodings of int64 (negative ones included) and the queue is keyed by int64
 	Inputs [][]pqItem `json:"inputs"`
 	// observation
 	Out     []pqOut `json:"out"`
@@ -401,6 +409,32 @@ func (c *c16PQ) Exec() {
 		}
 	}()
 	c.Out, c.InitErr, c.NextErr = nil, false, false
+	if c.Int {
+		var its []pq.IteratorWithContext[int64, []byte, int]
+		for i, in := range c.Inputs {
+			its = append(its, &intIter{sliceIter{items: in, ctx: i}})
+		}
+		var cmp skiplist.Comparator[int64] = skiplist.OrderedComparator[int64]{}
+		if c.Mag {
+			cmp = magIntCmp{}
+		}
+		q, err := pq.NewPriorityQueue[int64, []byte, int](cmp, its)
+		if err != nil {
+			c.InitErr = true
+			return
+		}
+		for n := 0; n < 10000000; n++ {
+			k, v, ctx, err := q.Next()
+			if err != nil {
+				if !errors.Is(err, pq.Done) {
+					c.NextErr = true
+				}
+				return
+			}
+			c.Out = append(c.Out, pqOut{K: encInt(k), V: v, Ctx: ctx})
+		}
+		return
+	}
 	var its []pq.IteratorWithContext[[]byte, []byte, int]
 	for i, in := range c.Inputs {
 		its = append(its, &sliceIter{items: in, ctx: i})
@@ -424,6 +458,17 @@ func (c *c16PQ) Exec() {
 		}
 		c.Out = append(c.Out, pqOut{K: k, V: v, Ctx: ctx})
 	}
+}
+
+// the same input delivered with int64 keys
+type intIter struct{ sliceIter }
+
+func (s *intIter) Next() (int64, []byte, error) {
+	k, v, err := s.sliceIter.Next()
+	if err != nil {
+		return 0, nil, err
+	}
+	return decInt(k), v, nil
 }
 
 func (c *c16PQ) hasErr() bool {
@@ -744,7 +789,7 @@ func genC16(r *rand.Rand, tier string) []Case {
 		if i < 4 {
 			k = i
 		}
-		c := &c16PQ{Mag: i%2 == 1}
+		c := &c16PQ{Mag: i%2 == 1, Int: i%5 == 3}
 		wide := i%10 == 7 // many inputs that are all alive at the same time
 		if wide {
 			k = 8 + r.Intn(9)
@@ -762,7 +807,11 @@ func genC16(r *rand.Rand, tier string) []Case {
 			}
 			var keys [][]byte
 			for x := 0; x < n; x++ {
-				keys = append(keys, randKey(r, "bytes"))
+				if c.Int {
+					keys = append(keys, randKey(r, "int"))
+				} else {
+					keys = append(keys, randKey(r, "bytes"))
+				}
 			}
 			sort.Slice(keys, func(a, b int) bool { return bytes.Compare(keys[a], keys[b]) < 0 })
 			var in []pqItem
